@@ -146,9 +146,9 @@ class AggrGen:
         def atom():
             a = agg()
             cmpv, cmps = r.choice(CMP if a[3] != 'Boolean' else CMP[4:])
-            if r.random() < 0.2 and a[3] in G.NUM + ('Integer',):
+            if r.random() < 0.2 and a[3] in G.NUM and a[2] != 'count':
                 b = agg()
-                if b[3] in G.NUM:
+                if b[3] in G.NUM and b[2] != 'count':
                     return '%s %s %s' % (a[0], cmpv, b[0]), '(bin %s %s %s)' % (cmps, a[1], b[1])
             c = self.hconst(a[2], a[3])
             return '%s %s %s' % (a[0], cmpv, G.vtl_const(c)), '(bin %s %s (const %s))' % (cmps, a[1], enc_value(c))
@@ -173,6 +173,8 @@ class AggrGen:
         else:
             op = r.choice(ANY_OPS)
         form, gv, gsx, rids = self.grouping(d['ids'])
+        while not meas and op != 'count' and not rids:
+            form, gv, gsx, rids = self.grouping(d['ids'])
         hv, hsx, hops = '', '_', []
         if form != 'none' and len(meas) == 1 and r.random() < 0.35:
             hv, hsx, hops = self.having(meas)
@@ -261,16 +263,27 @@ class AggrGen:
         rm = [('int_var', 'Integer')] if op == 'count' else [(n, (t if op in ('sum', 'min', 'max') else 'Number')) for n, t in d['meas']]
         return self.finish('filtered-operand', fam, d, nr, vtl, sx, [op], form, rids, rm, [])
 
-    def rejected_having(self):
+    def rejected_having(self, k=None):
         """forms of `having` the engine is known to reject (kept apart: every outcome is a finding or a skip)."""
         r = self.r
         fam, d, nr = self.dataset(fam='num2', nrows=r.choice([3, 9, 25]))
-        if r.random() < 0.5:
+        k = r.random() if k is None else k
+        if k < 0.25:
+            vtl = 'DS_r <- DS_1[aggr Me_3 := sum(Me_1) group by Id_1 having avg(Me_1) > count(Me_1)];'
+            sx = ('(aggr (spec (by "Id_1") (list (item "Me_3" sum (expr (col "Me_1")))) '
+                  '(having ((item "__h0" avg (expr (col "Me_1"))) (item "__h1" count (expr (col "Me_1")))) (bin gt (col "__h0") (col "__h1")))) (ds DS_1))')
+            return self.finish('having-count-vs-aggregate', fam, d, nr, vtl, sx, ['sum'], 'by', d['ids'][:1], [('Me_3', 'Number')], ['avg', 'count'])
+        if k < 0.5:
             vtl = 'DS_r <- DS_1[aggr Me_3 := sum(Me_1), Me_4 := max(Me_2) group by Id_1 having avg(Me_1) > 0];'
             sx = ('(aggr (spec (by "Id_1") (list (item "Me_3" sum (expr (col "Me_1"))) (item "Me_4" max (expr (col "Me_2")))) '
                   '(having ((item "__h0" avg (expr (col "Me_1")))) (bin gt (col "__h0") (const (i 0))))) (ds DS_1))')
             return self.finish('having-other-component', fam, d, nr, vtl, sx, ['sum', 'max'], 'by', d['ids'][:1],
                                [('Me_3', 'Number'), ('Me_4', 'Integer')], ['avg'])
+        if k < 0.7:
+            fam, d, nr = self.dataset(fam='nomeas', nrows=r.choice([0, 1, 3, 9]))
+            op = r.choice(['min', 'max'])
+            return self.finish('minmax-no-measures-ungrouped', fam, d, nr, 'DS_r <- %s(DS_1);' % op,
+                               '(aggr (spec none (each %s) _) (ds DS_1))' % op, [op], 'none', [], [], [])
         vtl = 'DS_r <- sum(DS_1 group by Id_1 having avg(Me_1) > 0);'
         sx = '(aggr (spec (by "Id_1") (each sum) (having ((item "__h0" avg (expr (col "Me_1")))) (bin gt (col "__h0") (const (i 0))))) (ds DS_1))'
         return self.finish('having-two-measures', fam, d, nr, vtl, sx, ['sum'], 'by', d['ids'][:1], list(d['meas']), ['avg'])
